@@ -40,7 +40,15 @@
 //! * ROUTE    probe matrix at the end: from every host one tagged UDP
 //!            datagram and one TCP connect to every (address, port) with
 //!            address in {every address of every host, loopback, one unknown
-//!            address} x both families and port in {3 fixed ports, every port
+//!            address} x both families, plus the address *spellings* that alias
+//!            an owned address without being one -- the IPv4-mapped
+//!            (`::ffff:a.b.c.d`) and IPv4-compatible (`::a.b.c.d`) IPv6 forms of
+//!            every owned IPv4 address and `::ffff:127.0.0.1`; these are IPv6
+//!            destinations nobody owns (binding one is `AddrNotAvailable`), so
+//!            they are unknown destinations: nothing may be delivered to any
+//!            socket of any host (in particular not to an IPv6 wildcard socket
+//!            of the host owning a.b.c.d) and a TCP connect must time out, not
+//!            be refused or accepted -- and port in {3 fixed ports, every port
 //!            in use}; plus, for every connected UDP socket, a datagram sent
 //!            from exactly its peer address when that address can be bound.
 //!            Every datagram is received by exactly the socket the model
@@ -97,6 +105,12 @@ pub enum AddrSel {
     /// i-th address (of the family) of the next host: not local
     Foreign(u8),
     Unknown,
+    /// IPv4-mapped IPv6 spelling `::ffff:a.b.c.d` of the i-th IPv4 address of the host in question
+    /// (the acting host for a bind, the target host for a connect).  Always an IPv6 address, and
+    /// one that NO host owns: not local anywhere, an unknown destination on the wire.
+    Mapped(u8),
+    /// IPv4-compatible IPv6 spelling `::a.b.c.d`, likewise owned by nobody
+    Compat(u8),
 }
 
 #[derive(Clone, Copy, Debug, Serialize, Deserialize, PartialEq)]
@@ -233,6 +247,32 @@ fn unknown_ip(v6: bool) -> IpAddr {
         IpAddr::V4(Ipv4Addr::new(10, 9, 9, 9))
     }
 }
+/// IPv4-mapped (`::ffff:a.b.c.d`) / IPv4-compatible (`::a.b.c.d`) IPv6 spelling of an IPv4 address.
+/// These are distinct IPv6 addresses: a host that owns a.b.c.d does not own them (binding them is
+/// `AddrNotAvailable`), so on the wire they are unknown destinations.
+fn alias_of(ip: IpAddr, mapped: bool) -> IpAddr {
+    match ip {
+        IpAddr::V4(a) => {
+            if mapped {
+                IpAddr::V6(a.to_ipv6_mapped())
+            } else {
+                let o = a.octets();
+                IpAddr::V6(Ipv6Addr::new(0, 0, 0, 0, 0, 0, u16::from_be_bytes([o[0], o[1]]), u16::from_be_bytes([o[2], o[3]])))
+            }
+        }
+        v6 => v6,
+    }
+}
+/// the IPv4 address an IPv6 address is an alias spelling of (mapped or compatible form), if any
+fn alias_target(ip: IpAddr) -> Option<IpAddr> {
+    let IpAddr::V6(a) = ip else { return None };
+    let s = a.segments();
+    if s[0..5] == [0, 0, 0, 0, 0] && (s[5] == 0xffff || s[5] == 0) && (s[6] != 0 || s[7] > 1) {
+        Some(IpAddr::V4(Ipv4Addr::new((s[6] >> 8) as u8, s[6] as u8, (s[7] >> 8) as u8, s[7] as u8)))
+    } else {
+        None
+    }
+}
 fn lo(v6: bool) -> IpAddr {
     if v6 {
         Ipv6Addr::LOCALHOST.into()
@@ -305,6 +345,8 @@ impl Sim {
                 host_addr(o, v6, i as usize % self.naddrs(o, v6))
             }
             AddrSel::Unknown => unknown_ip(v6),
+            AddrSel::Mapped(i) => alias_of(host_addr(h, false, i as usize % self.naddrs(h, false)), true),
+            AddrSel::Compat(i) => alias_of(host_addr(h, false, i as usize % self.naddrs(h, false)), false),
         }
     }
 
@@ -602,8 +644,13 @@ impl Sim {
         let port = ports[p as usize % ports.len()];
         let ip = match sel {
             AddrSel::Any => self.sel_addr(ph, AddrSel::Local(0), v6),
+            // the alias spellings are IPv6 addresses: an IPv4 socket gets the plain unknown address
+            AddrSel::Mapped(_) | AddrSel::Compat(_) if !v6 => unknown_ip(false),
             other => self.sel_addr(ph, other, v6),
         };
+        if alias_target(ip).is_some() {
+            self.out.label("udp-connect:peer-is-an-alias-spelling-of-an-ipv4-address");
+        }
         let peer = SocketAddr::new(ip, port);
         let Obj::Udp(u) = &self.objs[ei] else { return };
         match now_or_never(u.get().connect(peer)) {
@@ -642,6 +689,9 @@ impl Sim {
             AddrSel::Lo => lo(v6),
             other => self.sel_addr(th, other, v6),
         };
+        if alias_target(ip).is_some() {
+            self.out.label("connect:destination-is-an-alias-spelling-of-an-ipv4-address");
+        }
         self.tcp_connect_to(h, SocketAddr::new(ip, port));
     }
 
@@ -819,7 +869,32 @@ impl Sim {
             v.push(lo(v6));
             v.push(unknown_ip(v6));
         }
+        // spellings that alias (or nearly alias) owned addresses but are owned by nobody: the
+        // IPv4-mapped and IPv4-compatible IPv6 forms of every owned IPv4 address and of IPv4
+        // loopback.  They are IPv6 destinations (sent from the IPv6 probe sockets) and unknown ones.
+        for mapped in [true, false] {
+            for h in 0..self.nh {
+                for i in 0..self.naddrs(h, false) {
+                    v.push(alias_of(host_addr(h, false, i), mapped));
+                }
+            }
+        }
+        v.push(alias_of(lo(false), true));
         v
+    }
+
+    /// class label for a probe to an alias spelling: is there an IPv6 wildcard socket of that
+    /// protocol on the probed port on the host owning the aliased IPv4 address (own host for loopback)?
+    fn note_alias_probe(&mut self, from: usize, tcp: bool, dst: SocketAddr) {
+        let Some(v4) = alias_target(dst.ip()) else { return };
+        let owner = if v4.is_loopback() { Some(from) } else { self.world.owner(v4) };
+        let Some(o) = owner else { return };
+        let victim = self.entries.iter().any(|e| e.live && e.host == o && e.tcp == tcp && e.v6() && e.addr.is_unspecified() && e.port == dst.port() && (!tcp || e.role == Role::Listener));
+        let k = if tcp { "tcp" } else { "udp" };
+        self.out.label(format!("probe:{k}:alias-spelling-of-an-owned-ipv4-address"));
+        if victim {
+            self.out.label(format!("probe:{k}:alias-spelling-with-ipv6-wildcard-on-the-owner's-port"));
+        }
     }
 
     fn probes(&mut self) {
@@ -860,6 +935,7 @@ impl Sim {
                     let dst = SocketAddr::new(*d, *p);
                     let pe = psock[&(h, d.is_ipv6())];
                     let srcs = self.probe_srcs(pe, *d);
+                    self.note_alias_probe(h, false, dst);
                     if !self.udp_send(pe, dst, tag) {
                         return;
                     }
@@ -988,6 +1064,7 @@ impl Sim {
                         Ok(None) => Err(ErrorKind::ConnectionRefused),
                         Ok(Some(l)) => Ok(l),
                     };
+                    self.note_alias_probe(h, true, dst);
                     self.world.pin(h);
                     let fut: Held<ConnFut> = self.world.hold(h, Box::pin(TcpStream::connect(dst)));
                     ps.push(P { h, dst, fut: Some(fut), res: None, exp });
@@ -1384,7 +1461,16 @@ pub fn run(sc: &Scenario) -> Outcome {
 // ---------------------------------------------------------------- generator
 
 fn addr_sel() -> BoxedStrategy<AddrSel> {
-    prop_oneof![4 => Just(AddrSel::Any), 2 => Just(AddrSel::Lo), 5 => (0u8..2).prop_map(AddrSel::Local), 1 => (0u8..2).prop_map(AddrSel::Foreign), 1 => Just(AddrSel::Unknown)].boxed()
+    prop_oneof![
+        8 => Just(AddrSel::Any),
+        4 => Just(AddrSel::Lo),
+        10 => (0u8..2).prop_map(AddrSel::Local),
+        2 => (0u8..2).prop_map(AddrSel::Foreign),
+        2 => Just(AddrSel::Unknown),
+        1 => (0u8..2).prop_map(AddrSel::Mapped),
+        1 => (0u8..2).prop_map(AddrSel::Compat),
+    ]
+    .boxed()
 }
 fn port_sel() -> BoxedStrategy<PortSel> {
     prop_oneof![3 => Just(PortSel::Zero), 5 => (0u8..3).prop_map(PortSel::Fixed)].boxed()
@@ -1396,8 +1482,8 @@ fn op_strategy() -> BoxedStrategy<Op> {
     prop_oneof![
         6 => (h.clone(), addr_sel(), v6.clone(), port_sel()).prop_map(|(h, addr, v6, port)| Op::BindUdp { h, addr, v6, port }),
         5 => (h.clone(), addr_sel(), v6.clone(), port_sel()).prop_map(|(h, addr, v6, port)| Op::BindTcp { h, addr, v6, port }),
-        2 => (h.clone(), 0u8..6, 0u8..3, prop_oneof![3 => (0u8..2).prop_map(AddrSel::Local), 1 => Just(AddrSel::Lo), 1 => Just(AddrSel::Unknown)], 0u8..8).prop_map(|(h, s, ph, addr, p)| Op::UdpConnect { h, s, ph, addr, p }),
-        1 => (h.clone(), 0u8..3, prop_oneof![4 => (0u8..2).prop_map(AddrSel::Local), 1 => Just(AddrSel::Lo), 1 => Just(AddrSel::Unknown)], v6, 0u8..8).prop_map(|(h, th, addr, v6, p)| Op::TcpConnect { h, th, addr, v6, p }),
+        2 => (h.clone(), 0u8..6, 0u8..3, prop_oneof![6 => (0u8..2).prop_map(AddrSel::Local), 2 => Just(AddrSel::Lo), 2 => Just(AddrSel::Unknown), 1 => (0u8..2).prop_map(AddrSel::Mapped), 1 => (0u8..2).prop_map(AddrSel::Compat)], 0u8..8).prop_map(|(h, s, ph, addr, p)| Op::UdpConnect { h, s, ph, addr, p }),
+        1 => (h.clone(), 0u8..3, prop_oneof![8 => (0u8..2).prop_map(AddrSel::Local), 2 => Just(AddrSel::Lo), 2 => Just(AddrSel::Unknown), 1 => (0u8..2).prop_map(AddrSel::Mapped), 1 => (0u8..2).prop_map(AddrSel::Compat)], v6, 0u8..8).prop_map(|(h, th, addr, v6, p)| Op::TcpConnect { h, th, addr, v6, p }),
         4 => (h.clone(), 0u8..6, prop::bool::ANY).prop_map(|(h, l, lo)| Op::TcpConnectL { h, l, lo }),
         3 => (h, 0u8..8).prop_map(|(h, s)| Op::Close { h, s }),
     ]
@@ -1418,10 +1504,10 @@ fn check(tier: Tier, seed: u64) -> i32 {
     ctx.replay_corpus(&replay);
     ctx.random("table", tier.pick(30_000, 400_000), &|| strategy(), &run);
     ctx.finish(
-        "random scenarios: 2-3 hosts with 1-2 IPv4 and 1-2 IPv6 addresses each, ephemeral range 5001..=5001+k-1 (k = 1..4, hook H3; overlaps the fixed ports 5001 and 5002) x wire class (immediate 50% / delayed 50%: TCP segments of connects held 0 or 2..4 rounds by a generated pattern, in 35% of those one SYN-ACK lost; retx_threshold 3, retx_max 1 resp. 4) x 3-25 operations (UDP bind / TCP listener bind to wildcard, loopback, a local address, an address of another host or an unknown address, port 0 or 5000/5001/5002; UDP connect to an address of some host, loopback or an unknown address; TCP connect + accept; close) x the full probe matrix (from every host a tagged UDP datagram and a TCP connect to every address of every host, loopback and an unknown address in both families, on the 3 fixed ports and every port in use; the own send of every connected UDP socket and a datagram from its exact peer (sent from a socket bound to the peer address when one can be bound, else from a wildcard-bound socket on the peer's port); a tag each way on every established connection). Non-trivial = at some point >= 2 live UDP sockets / TCP listeners of one host share a port number across addresses, families or protocols; distinct by scenario hash.",
+        "random scenarios: 2-3 hosts with 1-2 IPv4 and 1-2 IPv6 addresses each, ephemeral range 5001..=5001+k-1 (k = 1..4, hook H3; overlaps the fixed ports 5001 and 5002) x wire class (immediate 50% / delayed 50%: TCP segments of connects held 0 or 2..4 rounds by a generated pattern, in 35% of those one SYN-ACK lost; retx_threshold 3, retx_max 1 resp. 4) x 3-25 operations (UDP bind / TCP listener bind to wildcard, loopback, a local address, an address of another host, an unknown address or the IPv4-mapped / IPv4-compatible IPv6 spelling of an own IPv4 address (7% of the binds; must be AddrNotAvailable), port 0 or 5000/5001/5002; UDP connect to an address of some host, loopback, an unknown address or such an alias spelling; TCP connect (also to an alias spelling: must time out) + accept; close) x the full probe matrix (from every host a tagged UDP datagram and a TCP connect to every address of every host, loopback and an unknown address in both families, and -- from the IPv6 probe sockets -- to the IPv4-mapped (::ffff:a.b.c.d) and IPv4-compatible (::a.b.c.d) spelling of every owned IPv4 address and to ::ffff:127.0.0.1, which nobody owns (classes probe:*:alias-spelling-with-ipv6-wildcard-on-the-owner's-port count the cases where the owner of a.b.c.d has an IPv6 wildcard socket/listener on the probed port), on the 3 fixed ports and every port in use; the own send of every connected UDP socket and a datagram from its exact peer (sent from a socket bound to the peer address when one can be bound, else from a wildcard-bound socket on the peer's port); a tag each way on every established connection). Non-trivial = at some point >= 2 live UDP sockets / TCP listeners of one host share a port number across addresses, families or protocols; distinct by scenario hash.",
         &[
             "no SO_REUSEADDR/SO_REUSEPORT: the shim does not expose them and Kernel::set_option panics (unimplemented) for them; without them an exact-address socket and a wildcard socket of the same (family, protocol, port) can never coexist, so the 'exact before wildcard' order and the 'connected exact socket vs. wildcard fallback' case are not reachable through the public API",
-            "IPv4 and IPv6 are separate port spaces (no dual-stack wildcard)",
+            "IPv4 and IPv6 are separate port spaces (no dual-stack wildcard); turmoil-net documents no dual-stack delivery (IPV6_V6ONLY is listed as an option but set_option is unimplemented), address ownership is exact (Net::add_host registers the given IpAddr values, the fabric 'routes by destination IP and silently drops unknown addresses'), so ::ffff:a.b.c.d and ::a.b.c.d are addresses distinct from a.b.c.d that no host owns",
             "UDP datagrams and the segments of closing connections are always delivered in the round they are emitted; only TCP segments emitted while a connect is in progress are delayed / reordered (delayed class), holds <= 4 rounds and at most one lost SYN-ACK against a budget of retx_threshold 3 x retx_max 4, and the wire is left to settle before results, accept queues and table counts are judged",
             "TCP connections are closed on both ends and left to finish before the next step, so that 'live socket' is unambiguous",
             "which free port an ephemeral allocation returns is not predicted (any port of the range unused at every local address of that family+protocol is accepted); exhaustion must fail with AddrInUse",
@@ -1438,7 +1524,7 @@ fn replay(_sub: &str, v: &Value) -> Result<Outcome, String> {
 
 /// Clamp a byte-decoded scenario (engine::bytesde) into exactly the domain of `strategy()` (sub
 /// `table`): 2..=3 hosts with 1..=2 addresses per family and 1..=4 ephemeral ports, 3..=25
-/// operations within `op_strategy`'s ranges (connect targets only Local/Lo/Unknown), wire class
+/// operations within `op_strategy`'s ranges (connect targets only Local/Lo/Unknown/Mapped/Compat), wire class
 /// None or holds of 1..=7 entries out of {0,2,3,4} with an optional lost SYN-ACK 0..=5.
 pub fn fuzz_sanitize(sc: &mut Scenario) -> bool {
     sc.hosts.truncate(3);
@@ -1451,7 +1537,7 @@ pub fn fuzz_sanitize(sc: &mut Scenario) -> bool {
         h.eph_len = 1 + h.eph_len % 4;
     }
     let bind_addr = |a: &mut AddrSel| {
-        if let AddrSel::Local(i) | AddrSel::Foreign(i) = a {
+        if let AddrSel::Local(i) | AddrSel::Foreign(i) | AddrSel::Mapped(i) | AddrSel::Compat(i) = a {
             *i %= 2;
         }
     };
@@ -1460,6 +1546,8 @@ pub fn fuzz_sanitize(sc: &mut Scenario) -> bool {
             AddrSel::Local(i) | AddrSel::Foreign(i) => AddrSel::Local(i % 2),
             AddrSel::Any | AddrSel::Lo => AddrSel::Lo,
             AddrSel::Unknown => AddrSel::Unknown,
+            AddrSel::Mapped(i) => AddrSel::Mapped(i % 2),
+            AddrSel::Compat(i) => AddrSel::Compat(i % 2),
         }
     };
     let port_sel = |p: &mut PortSel| {
